@@ -9,12 +9,12 @@ mkdir -p .work evidence replays ocaml/gen ocaml/build
 ( cd coq && sh mkproject.sh && timeout 3000 make -k -j16 >../.work/setup-coq.log 2>&1 ) || { echo "coq build failed (see .work/setup-coq.log)"; tail -20 .work/setup-coq.log; }
 ( cd ocaml && sh build.sh ) || echo "ocaml driver build failed"
 ( cd harness && cp /repo/Cargo.lock Cargo.lock && timeout 3000 cargo build --offline --keep-going --bins --features ls,ts >../.work/setup-cargo.log 2>&1 ) || { echo "harness build failed (see .work/setup-cargo.log)"; tail -20 .work/setup-cargo.log; }
-# C10: the real harper-ls binary, so that the quick tier always runs the real-binary checks (listener address with
+# C10: the real harper-ls and harper-cli binaries (one target directory), so that the quick tier always runs the real-binary checks (listener address with
 # port 4000 busy / free, strace of real sessions). Built from a cwd OUTSIDE /repo (its rust-toolchain.toml names the
 # channel "stable" + a wasm32 target, which makes rustup go to the network) with the toolchain named explicitly.
 # A read-only seed copy outside /verif lets tools/mutcheck.sh (whose private /verif has an empty .work) start warm.
 ( cd /tmp && RUSTUP_TOOLCHAIN="${RUSTUP_TOOLCHAIN:-stable-x86_64-unknown-linux-gnu}" CARGO_TARGET_DIR="$OLDPWD/.work/c10-ls-target" \
-    timeout 3000 cargo build --offline --locked --manifest-path /repo/Cargo.toml -p harper-ls >"$OLDPWD/.work/setup-c10-ls.log" 2>&1 \
+    timeout 3000 cargo build --offline --locked --manifest-path /repo/Cargo.toml -p harper-ls -p harper-cli >"$OLDPWD/.work/setup-c10-ls.log" 2>&1 \
   && mkdir -p /var/tmp/verif-c10-ls-target-seed \
   && rsync -a --delete "$OLDPWD/.work/c10-ls-target/" /var/tmp/verif-c10-ls-target-seed/ ) || { echo "harper-ls pre-build failed (see .work/setup-c10-ls.log)"; tail -5 .work/setup-c10-ls.log; }
 echo "setup done"
